@@ -12,7 +12,7 @@ DIMS = [
  ("sig", ["one-line", "one-param-per-line", "closing-paren-own-line", "trailing-comma"]),
  ("annot", ["none", "annotations-and-defaults"]),
  ("markers", ["none", "positional-only", "keyword-only"]),
- ("strform", ['"x"', "'x'", '"""x"""', 'r"x"', "implicit-concatenation", "parenthesised"]),
+ ("strform", ['"x"', "'x'", '"""x"""', 'r"x"', "implicit-concatenation", "parenthesised", 'r"""x"""', "R\'\'\'x\'\'\'", "u'x'", 'U"""x"""']),
  ("ws", ["spaces", "tabs"]),
  ("eol", ["LF", "CRLF"]),
  ("nonascii", ["none", "default-value-é-before-token", "default-value-emoji-before-token", "non-ascii-parameter-before-token", "non-ascii-class-name", "non-ascii-in-usefixtures-before"]),
@@ -73,7 +73,7 @@ def build(a):
     L.append("")
     # test with the signature layout
     sf = a["strform"]
-    lit = ['"fx_name"', "'fx_name'", '"""fx_name"""', 'r"fx_name"', '"fx_" "name"', '("fx_name")'][sf]
+    lit = ['"fx_name"', "'fx_name'", '"""fx_name"""', 'r"fx_name"', '"fx_" "name"', '("fx_name")', 'r"""fx_name"""', "R'''fx_name'''", "u'fx_name'", 'U"""fx_name"""'][sf]
     pre = '"é_other", ' if a["nonascii"] == 5 else ""
     L.append(I + "@pytest.mark.usefixtures(%s%s)" % (pre, lit))
     tname = "test_fx_name_user" if a["collide"] == 1 else "test_one"
